@@ -292,6 +292,8 @@ func runReq(raw json.RawMessage, seed int64, rec *Rec) {
 		body = env(0, encodeBV(codec, big))
 	case "cnoenc":
 		body = env(1, refcodec.Gzip(encodeBV(codec, m1)))
+	case "cflagplain":
+		body = env(1, encodeBV(codec, m1))
 	case "flagged", "flagged0":
 		flags := []byte{0x02, 0x80, 0x04, 0x03, 0x81}
 		var payload []byte
@@ -302,7 +304,7 @@ func runReq(raw json.RawMessage, seed int64, rec *Rec) {
 	case "msgthenbad":
 		body = append(env(0, encodeBV(codec, m1)), env(0, bad)...)
 	}
-	if (s.Enc == "gzip" || s.Enc == "GZIP") && len(body) > 0 && s.Body != "garbage" && s.Body != "truncated" && s.Body != "cnoenc" && s.Body != "flagged" && s.Body != "flagged0" {
+	if (s.Enc == "gzip" || s.Enc == "GZIP") && len(body) > 0 && s.Body != "garbage" && s.Body != "truncated" && s.Body != "cnoenc" && s.Body != "cflagplain" && s.Body != "flagged" && s.Body != "flagged0" {
 		// a correctly compressed variant of the same body
 		if rawBody {
 			body = refcodec.Gzip(body)
